@@ -809,6 +809,23 @@ func (f *FnVC) trCall(env *Env, x SCall) TV {
 			return TV{t, nil, a.Sort}
 		}
 		sfail("storeAt: first argument must be a ghost map")
+	case "boxZero":
+		// boxZero(T): the interface value holding the zero value of T (e.g. an empty struct used as a context key)
+		if len(x.Args) != 1 {
+			sfail("boxZero(T)")
+		}
+		tn := sexprString(x.Args[0])
+		ty := f.g.resolveType(tn, env.pkg, f.pkgPath())
+		if ty == nil {
+			sfail("boxZero: unknown type %s", tn)
+		}
+		box, unbox := f.boxFun(ty)
+		z := f.sorts.zeroOf(ty)
+		b := sApp(box, z)
+		f.fact("(> " + b + " 0)")
+		f.fact(sEq(sApp(unbox, b), z))
+		f.fact(sEq(sApp("typeof", b), f.typeTag(ty)))
+		return TV{b, types.NewInterfaceType(nil, nil), "Int"}
 	case "addrOfElem":
 		// addrOfElem(s, i): &s[i] for a slice s
 		a, i := arg(0), arg(1)
